@@ -920,7 +920,8 @@ static std::string match_(const vf::Violation& v, const vf::Case& c)
     // on an iterate that diverged in the first one) compute() carries on and multiplies the never-assigned BX: Eigen size assertion
     if (v.kind == "eigen_assert" && v.detail.find("invalid matrix product") != std::string::npos && c.f("stage") == 2 && c.f("success1") == 0)
         return "lobpcg_unset_bx_after_failed_orthonormalisation";
-    // KF-C17-3 (provisional): Success reported for an iterate that is not B-orthonormal
+    // KF-C17-3: Success reported for an iterate that is not B-orthonormal (the Gram matrix of [X R D] is assembled with assumed identity
+    // blocks and R, D are orthonormalised by an unguarded LDLT: loss of orthonormality from 1e-11 up to a collapsed iterate X ~ 0).
     // Matched only after at least one Rayleigh-Ritz step (or on a second compute()). The same ill-conditioned coefficient matrices
     // amplify the rounding errors of the recurrences for A X and B X, so a residual-identity failure belongs to this finding when
     // orthonormality is lost too and the mismatch is still small relative to ||A|| ||X|| (amplified rounding, not a wrong formula).
